@@ -405,9 +405,9 @@ class MockIncludeDirective:
         self.document.settings.record_dependencies.add(str(path))
 
         # refuse circular inclusion (a file that, directly or not, includes itself)
-        include_stack: list[str] = self.renderer.__dict__.setdefault(
-            "_include_stack", [os.path.abspath(self.document["source"])]
-        )
+        include_stack: list[str] = self.renderer._include_stack
+        if not include_stack:
+            include_stack.append(os.path.abspath(self.document["source"]))
         if os.path.abspath(path) in include_stack:
             raise DirectiveError(
                 4, f'Directive "{self.name}": circular inclusion of {str(path)!r}'
